@@ -1,9 +1,11 @@
 import Pxv.Driver.Body
 import Pxv.Driver.Domain
+import Pxv.Driver.Bp
 open Pxv.Driver
 
 def main (args : List String) : IO UInt32 := do
   match args with
   | ["body"] => serve Pxv.Body.handle; return 0
   | ["domain"] => serve Pxv.Domain.handle; return 0
+  | ["bp"] => serve Pxv.Bp.handle; return 0
   | _ => IO.eprintln "usage: pxmodel <model>"; return 2
